@@ -12,6 +12,7 @@
                               Set<F>() of optional composites, Set<F>(dictionary struct, frozen or not),
                               SetType, Set<Alt>, EnsureLen / Append / CopyFromSlice of arrays, Append of
                               structs (shared or copied), EnsureLen / SetKey / SetValue / Append of multimaps,
+                              SetKey / SetValue of dictionary-struct keys / values (frozen or not),
                               CopyFrom, at any nested path.
     copyFrom_preserves_sound  the instance for CopyFrom(src) (copy<T> of structs, oneofs, arrays and
                               multimaps, any source and destination state), EVERY schema: dictionary
